@@ -324,3 +324,211 @@ func protectNT(f func() (bool, error)) (nt bool, err error) {
 	})
 	return
 }
+
+// ---------------------------------------------------------------------------
+// Several logical-time columns in one record, in every shape a Go struct can give
+// them: plain, pointer, slice, slice of pointers, map, map of pointers. The
+// single-column cases above never have two values decoded into one record.
+
+type c19Col struct {
+	Logical string  `json:"logical"`
+	Shape   string  `json:"shape"` // plain ptr slice sliceptr map mapptr
+	Stored  []int64 `json:"stored"`
+	Nulls   []bool  `json:"nulls,omitempty"` // ptr shapes: element i is null
+}
+
+type c19MultiCase struct {
+	Cols []c19Col `json:"cols"`
+}
+
+func init() {
+	registerReplay("c19multi", func(c c19MultiCase) error { _, err := runC19Multi(c); return err })
+}
+
+var c19Shapes = []string{"plain", "ptr", "slice", "sliceptr", "map", "mapptr"}
+
+func c19Base(logical string) ref.Schema {
+	switch logical {
+	case "date":
+		return ref.Schema{Kind: "int", LogicalType: "date", ObjectForm: true}
+	case "long":
+		return ref.Prim("long")
+	}
+	return ref.Schema{Kind: "long", LogicalType: logical, ObjectForm: true}
+}
+
+func runC19Multi(c c19MultiCase) (bool, error) {
+	rec := ref.Schema{Kind: "record", Name: "r"}
+	var sf []reflect.StructField
+	var datum ref.Datum
+	datum.K = "record"
+	tt := reflect.TypeOf(time.Time{})
+	viaNew := 0
+	for i, col := range c.Cols {
+		base := c19Base(col.Logical)
+		elem := func(j int) ref.Datum {
+			d := ref.Datum{K: base.Kind, I: col.Stored[j]}
+			if col.Shape == "ptr" || col.Shape == "sliceptr" || col.Shape == "mapptr" {
+				if j < len(col.Nulls) && col.Nulls[j] {
+					return ref.Union(0, ref.Null())
+				}
+				viaNew++
+				return ref.Union(1, d)
+			}
+			return d
+		}
+		var fs ref.Schema
+		var gt reflect.Type
+		var d ref.Datum
+		switch col.Shape {
+		case "plain":
+			fs, gt, d = base, tt, elem(0)
+		case "ptr":
+			fs, gt, d = ref.Nullable(base), reflect.PointerTo(tt), elem(0)
+		case "slice", "sliceptr":
+			it, et := base, tt
+			if col.Shape == "sliceptr" {
+				it, et = ref.Nullable(base), reflect.PointerTo(tt)
+			}
+			fs, gt = ref.Schema{Kind: "array", Items: &it}, reflect.SliceOf(et)
+			d = ref.Datum{K: "array"}
+			for j := range col.Stored {
+				d.Items = append(d.Items, elem(j))
+			}
+		default:
+			it, et := base, tt
+			if col.Shape == "mapptr" {
+				it, et = ref.Nullable(base), reflect.PointerTo(tt)
+			}
+			fs, gt = ref.Schema{Kind: "map", Values: &it}, reflect.MapOf(reflect.TypeOf(""), et)
+			d = ref.Datum{K: "map"}
+			for j := range col.Stored {
+				d.Keys = append(d.Keys, fmt.Sprintf("k%d", j))
+				d.Vals = append(d.Vals, elem(j))
+			}
+			if col.Shape == "map" {
+				viaNew += len(col.Stored)
+			}
+		}
+		rec.Fields = append(rec.Fields, ref.Field{Name: fmt.Sprintf("c%d", i), Type: fs})
+		sf = append(sf, reflect.StructField{Name: fmt.Sprintf("C%d", i), Type: gt, Tag: reflect.StructTag(fmt.Sprintf(`json:"c%d"`, i))})
+		datum.Fields = append(datum.Fields, d)
+	}
+	nt := viaNew >= 2
+	typ := reflect.StructOf(sf)
+	lib, err := avro.SchemaFromString(ref.Render(rec, nil))
+	if err != nil {
+		return nt, fmt.Errorf("SchemaFromString: %v", err)
+	}
+	codec, err := lib.Codec(reflect.New(typ).Elem().Interface())
+	if err != nil {
+		return nt, fmt.Errorf("Schema.Codec: %v", err)
+	}
+	body, err := ref.Encode(rec, datum, nil)
+	if err != nil {
+		return nt, fmt.Errorf("VERIF-INCONCLUSIVE harness: %v", err)
+	}
+	rb := avro.NewReadBuf(body)
+	v := reflect.New(typ)
+	if err := codec.Read(rb, v.UnsafePointer()); err != nil {
+		return nt, fmt.Errorf("Read failed: %v", err)
+	}
+	if rb.Len() != 0 {
+		return nt, fmt.Errorf("%d bytes left after the record", rb.Len())
+	}
+	check := func(base ref.Schema, want ref.Datum, got reflect.Value, path string) error {
+		if want.K == "union" {
+			if want.Branch == 0 {
+				if !got.IsNil() {
+					return fmt.Errorf("%s: null decoded to a non-nil pointer", path)
+				}
+				return nil
+			}
+			if got.IsNil() {
+				return fmt.Errorf("%s: value decoded to a nil pointer", path)
+			}
+			want, got = *want.U, got.Elem()
+		}
+		return agreeTimeInt(base, want, got.Interface().(time.Time), dirRead, path)
+	}
+	for i, col := range c.Cols {
+		base := c19Base(col.Logical)
+		f := v.Elem().Field(i)
+		d := datum.Fields[i]
+		path := fmt.Sprintf("c%d(%s %s)", i, col.Logical, col.Shape)
+		switch col.Shape {
+		case "plain", "ptr":
+			if err := check(base, d, f, path); err != nil {
+				return nt, err
+			}
+		case "slice", "sliceptr":
+			if f.Len() != len(d.Items) {
+				return nt, fmt.Errorf("%s: %d items decoded to %d", path, len(d.Items), f.Len())
+			}
+			for j := range d.Items {
+				if err := check(base, d.Items[j], f.Index(j), fmt.Sprintf("%s[%d]", path, j)); err != nil {
+					return nt, err
+				}
+			}
+		default:
+			if f.Len() != len(d.Keys) {
+				return nt, fmt.Errorf("%s: %d entries decoded to %d", path, len(d.Keys), f.Len())
+			}
+			for j, k := range d.Keys {
+				e := f.MapIndex(reflect.ValueOf(k))
+				if !e.IsValid() {
+					return nt, fmt.Errorf("%s: key %q missing", path, k)
+				}
+				if err := check(base, d.Vals[j], e, fmt.Sprintf("%s[%q]", path, k)); err != nil {
+					return nt, err
+				}
+			}
+		}
+	}
+	// written again, the record is the same datum (maps compared as sets)
+	wb := avro.NewWriteBuf(nil)
+	codec.Write(wb, v.UnsafePointer())
+	back, err := ref.DecodeExact(rec, append([]byte(nil), wb.Bytes()...))
+	if err != nil {
+		return nt, fmt.Errorf("writing the decoded record gave an invalid encoding: %v", err)
+	}
+	if diff := back.Diff(datum, "record"); diff != "" {
+		return nt, fmt.Errorf("decoded and written again, the record differs: %s", diff)
+	}
+	return nt, nil
+}
+
+func drawC19Multi(t *rapid.T) c19MultiCase {
+	var c c19MultiCase
+	n := gen.UniformRange(t, "ncols", 1, 5)
+	for i := 0; i < n; i++ {
+		col := c19Col{Logical: c19Logicals[gen.Uniform(t, "logical", 4)], Shape: c19Shapes[gen.Uniform(t, "shape", 6)]}
+		m := 1
+		if col.Shape != "plain" && col.Shape != "ptr" {
+			m = gen.UniformRange(t, "nelems", 0, 6)
+			if gen.Uniform(t, "many", 10) == 0 {
+				m = gen.UniformRange(t, "nelemsMany", 10, 40)
+			}
+		}
+		lo, hi := storedRange(col.Logical)
+		for j := 0; j < m; j++ {
+			col.Stored = append(col.Stored, gen.IntIn(t, "stored", lo, hi))
+			col.Nulls = append(col.Nulls, gen.Uniform(t, "null", 5) == 0)
+		}
+		c.Cols = append(c.Cols, col)
+	}
+	return c
+}
+
+func TestC19Multi(t *testing.T) {
+	col := stats.New("C19")
+	col.Rule = "at least two time values of one record are decoded through pointers or map values"
+	propCheck(t, col, "c19multi", drawC19Multi, func(c c19MultiCase) (bool, []string, error) {
+		nt, err := runC19Multi(c)
+		var labels []string
+		for _, x := range c.Cols {
+			labels = append(labels, "multi_"+x.Logical+"_"+x.Shape)
+		}
+		return nt, labels, err
+	})
+}
